@@ -53,6 +53,14 @@ func vNewWorldTSO(nkeys int, wrap func(tso.TSO) tso.TSO) *vWorld {
 	return w
 }
 
+// newLeader replaces the node by a fresh one on the same store whose revision starts at the highest
+// revision handed out (a leader change or restart: the event cache of the new node is empty).
+func (w *vWorld) newLeader() {
+	zzverif.WaitIdle()
+	w.b = vNewBackend(w.s, w.dealt, zzverif.Param("cache", 8))
+	zzverif.Cover("new-leader")
+}
+
 // val draws a non-empty value: one symbolic byte, or nine (which may equal the reserved marker).
 func vVal(tag string) []byte {
 	// val9: 0 = one-byte values only, 1 = the first write may carry nine bytes, 2 = every write may
